@@ -391,6 +391,7 @@ def run(chk, prog, tier):
                         '"never accepts a token it would otherwise reject": the verdict gate of C01 already quantifies over every allocation outcome',
                         'leaks on failure paths are reported by C06/C07\'s ownership rule, they are not part of this property\'s statement',
                         'every index k of the property = each allocation site x {fails, succeeds} on every path; no scenario list']
+    H.require_reached(H.VERIFY_PRIMS + H.SIGN_PRIMS + H.HMAC_PRIMS, 'C17')
     return chk.finish(
         'Each allocation routed through jwt_set_alloc (jwt_malloc and every jansson constructor/loader/dumper) is a two-way split on every '
         'path of the public operations (constructors, verify, generate, JWK loading, set/get). On all resulting paths: no dereference of an '
